@@ -148,8 +148,7 @@ fn run_probe() -> Probe {
         let mut params = rusl::platform::IoUringParams::new(IoUringParamFlags::empty(), 0, 0);
         if let Ok(fd) = rusl::io_uring::io_uring_setup(2, &mut params) {
             // IORING_FEAT_SINGLE_MMAP = 1
-            let feats: u32 = unsafe { *((&params as *const _ as *const u32).add(5)) };
-            p.single_mmap = feats & 1 != 0;
+            p.single_mmap = params.0.features & 1 != 0;
             sys::close_quiet(fd.value());
         }
     }
@@ -220,33 +219,34 @@ fn probe_links(p: &mut Probe) {
             ("recvmsg", "ENOTCONN-or-EINVAL", RawSqe { opcode: sys::OP_RECVMSG, fd: usock, addr: &mut mh as *mut _ as u64, len: 1, op_flags: libc::MSG_DONTWAIT as u32, ..base }),
         ];
         let mut ud = 0x5000u64;
-        for (kind, _why, mut sqe) in variants {
+        // per kind: were all heads "opcode unknown to this kernel" answers?
+        let mut all_unsup: std::collections::BTreeMap<&str, bool> = Default::default();
+        for (kind, why, mut sqe) in variants {
             ud += 2;
             sqe.flags |= sys::SQE_IO_LINK;
             sqe.user_data = ud;
             let nop = RawSqe { opcode: sys::OP_NOP, user_data: ud + 1, ..base };
+            let key = if why == "short" { "short-rw".to_string() } else { kind.to_string() };
             let Ok(cq) = s.run(vec![Sqe::Raw(sqe), Sqe::Raw(nop)]) else {
-                p.link.insert(kind.to_string(), LinkRule::Unknown);
+                p.link.insert(key, LinkRule::Unknown);
                 continue;
             };
             let head = cq.iter().find(|c| c.0 == ud).map(|c| c.1);
             let tail = cq.iter().find(|c| c.0 == ud + 1).map(|c| c.1);
+            if why != "short" {
+                let unsup = matches!(head, Some(h) if h == -libc::EINVAL || h == -libc::EOPNOTSUPP);
+                let e = all_unsup.entry(kind).or_insert(true);
+                *e = *e && unsup;
+            }
             let failed_as_meant = match head {
-                Some(h) => h < 0 || _why == "short",
+                Some(h) => h < 0 || (why == "short" && h < 64),
                 None => false,
             };
-            if let Some(h) = head {
-                // an opcode the kernel does not know answers EINVAL/EOPNOTSUPP for everything
-                if (h == -libc::EINVAL || h == -libc::EOPNOTSUPP) && !_why.contains("EINVAL") && !p.unsupported_ops.contains(&kind.to_string()) && _why != "short" {
-                    // remember; decided below when every variant of the kind said so
-                }
-            }
             let this = match (failed_as_meant, tail) {
                 (true, Some(t)) if t == -sys::ECANCELED => LinkRule::Breaks,
                 (true, Some(0)) => LinkRule::Continues,
                 _ => LinkRule::Unknown,
             };
-            let key = if _why == "short" { "short-rw".to_string() } else { kind.to_string() };
             let merged = match p.link.get(&key) {
                 None => this,
                 Some(&prev) if prev == this => this,
@@ -254,11 +254,15 @@ fn probe_links(p: &mut Probe) {
             };
             p.link.insert(key, merged);
         }
+        for (k, v) in all_unsup {
+            if v {
+                p.unsupported_ops.push(k.to_string());
+            }
+        }
         sys::close_quiet(ffd);
         sys::close_quiet(dfd);
         sys::close_quiet(usock);
     }
-    // fixed-buffer short transfers follow the same completion path as readv/writev
     s.finish();
     let _ = std::fs::remove_dir_all(&root);
 }
@@ -308,7 +312,17 @@ impl Session {
         }
         let mut expected: Vec<u64> = Vec::with_capacity(n as usize);
         for s in sqes {
-            let slot = no_panic("IoUring::get_next_sqe_slot", || ring.get_next_sqe_slot())?;
+            let mut slot = no_panic("IoUring::get_next_sqe_slot", || ring.get_next_sqe_slot())?;
+            if slot.is_none() && sqpoll {
+                // the submission thread publishes the consumed head after issuing the entries, which
+                // can be later than their completions: "full" is transient here, not a defect
+                sys::guard_arm(30);
+                while slot.is_none() && !sys::guard_fired() {
+                    std::thread::yield_now();
+                    slot = no_panic("IoUring::get_next_sqe_slot", || ring.get_next_sqe_slot())?;
+                }
+                sys::guard_disarm();
+            }
             let Some(slot) = slot else {
                 return Err(Failure::new("ring|no-sqe-slot|ring not full", format!("get_next_sqe_slot returned None with {} of {} slots in use", expected.len(), self.sq_entries)));
             };
